@@ -204,6 +204,13 @@ def run_check(modname, tier, seed, limit=None, only_cls=None):
     reported = 0
     unrepro = 0
     rdir = os.path.join(VERIF, 'replays', prop)
+    if os.path.isdir(rdir):
+        for old in os.listdir(rdir):          # replay files of earlier runs of this tier are stale now
+            if old.startswith(tier + '_'):
+                try:
+                    os.remove(os.path.join(rdir, old))
+                except OSError:
+                    pass
     for c in new_cls:
         lst = sorted(viol[c], key=lambda t: t[0])
         if reported >= MAX_REPLAYS:
@@ -359,6 +366,23 @@ def replay(path, quiet=False):
     mod = importlib.import_module(rec['module'])
     if hasattr(mod, 'init_worker'):
         mod.init_worker()
+    if ' | pool ' in rec.get('detail', '') and ' history ' in rec['detail']:
+        # a violation found by the history explorer: replay the minimal history with plain calls, no search
+        try:
+            from . import explore
+            tail = rec['detail'].split(' | pool ')[-1]
+            pid = int(tail.split(' history ')[0])
+            hist = json.loads(tail.split(' history ')[1])
+            mons = ('wf', 'imm')
+            found = explore.replay_history(pid, [(h[0], tuple(h[1]), h[2]) for h in hist], mons)
+            if not quiet:
+                print('plain replay of the history on pool %d:' % pid)
+                for step, h in enumerate(hist):
+                    print('   step %d: %s on objects %s (argument #%d)' % (step + 1, h[0], h[1], h[2]))
+                print('   monitors after the replay:', found if found else 'no wf/imm violation (value violations are reported by the search below)')
+        except Exception as e:
+            if not quiet:
+                print('plain replay failed:', repr(e))
     r = mod.run_case(rec['case'])
     cls = [v['cls'] for v in r['violations']]
     if not quiet:
